@@ -25,6 +25,8 @@ def parse_graphml(text):
         raise TextError('not well-formed XML: %s' % e)
     keys = {}
     for k in root.findall(NS + 'key'):
+        if k.get('id') in keys:
+            raise TextError('two <key> declarations share the id %r' % k.get('id'))
         keys[k.get('id')] = (k.get('attr.name'), k.get('attr.type'), k.get('for'))
     graph = root.find(NS + 'graph')
     if graph is None:
@@ -37,10 +39,15 @@ def parse_graphml(text):
                 raise TextError('data refers to undeclared key %r' % d.get('key'))
             name, typ, _ = keys[d.get('key')]
             txt = d.text if d.text is not None else ''
-            if typ in ('int', 'long'):
-                val = int(txt)
-            elif typ in ('float', 'double'):
-                val = float(txt)
+            try:
+                if typ in ('int', 'long'):
+                    val = int(txt)
+                elif typ in ('float', 'double'):
+                    val = float(txt)
+            except ValueError:
+                raise TextError('data %r is not of the declared type %s' % (txt[:30], typ))
+            if typ in ('int', 'long', 'float', 'double'):
+                pass
             elif typ == 'boolean':
                 val = txt.strip().lower() == 'true'
             else:
